@@ -100,6 +100,14 @@ func snapshot(v reflect.Value, cmap ast.CommentMap) (val *value) {
 	case reflect.Struct:
 		children := make([]*value, v.NumField())
 		for i := 0; i < v.NumField(); i++ {
+			if t == goast.FileType && isFileAlias(t.Field(i).Name) {
+				// File.Imports and File.Unresolved alias nodes that are
+				// already reachable through File.Decls. Diffing them again
+				// attributes changes to regions between import specs,
+				// which hold the comments of neighbouring declarations.
+				children[i] = &value{t: t.Field(i).Type, isNil: true}
+				continue
+			}
 			children[i] = snapshot(v.Field(i), cmap)
 		}
 		return &value{
@@ -113,6 +121,10 @@ func snapshot(v reflect.Value, cmap ast.CommentMap) (val *value) {
 			value: v.Interface(),
 		}
 	}
+}
+
+func isFileAlias(field string) bool {
+	return field == "Imports" || field == "Unresolved"
 }
 
 func minPos(l, r token.Pos) token.Pos {
